@@ -118,7 +118,11 @@ pub struct SingleCase {
 }
 
 fn single_strategy(n: u64) -> impl Strategy<Value = SingleCase> {
-    (prop::sample::select(vec![Kind::SmhF64, Kind::SmhF32, Kind::SmhF64NoHash]), prop_oneof![3 => 1usize..=5, 2 => 6usize..=64, 1 => 65usize..=300], any::<u64>()).prop_map(move |(kind, m, seed)| SingleCase { kind, m, n: (n / m as u64).max(10_000), seed })
+    (prop::sample::select(vec![Kind::SmhF64, Kind::SmhF32, Kind::SmhF64NoHash]), prop_oneof![6 => 1usize..=5, 4 => 6usize..=64, 2 => 65usize..=300, 2 => prop::sample::select(vec![5000usize, 20_000, 40_000, 49_152, 60_000, 65_537, 70_000, 100_000])], any::<u64>()).prop_map(move |(kind, m, seed)| {
+        // f32 sketches of very large m lose the fractional part of r + j altogether: large m only with f64
+        let kind = if m > 300 && kind.is_f32() { Kind::SmhF64 } else { kind };
+        SingleCase { kind, m, n: if m > 300 { (n / m as u64).max(4_000) } else { (n / m as u64).max(10_000) }, seed }
+    })
 }
 
 fn lehmer(p: &[usize]) -> usize {
@@ -135,6 +139,11 @@ struct SingleStats {
     pos_counts: Vec<u64>,
     fracs: Vec<f64>,
     prod: Acc,
+    /// dyadic tail bins of the fractional parts over ALL trials: tails[k-1] = count in [0, 2^-k), tails[14+k-1] = count in [1-2^-k, 1), k = 1..14
+    tails: Vec<u64>,
+    tails_n: u64,
+    /// m > 64: position (in 4 equal ranges of 0..m) of the integer parts 0, 1, m/2 and m-1: coarse[j_index * 4 + range]
+    coarse: Vec<u64>,
 }
 
 fn single_run(c: &SingleCase, seed: u64, n: u64) -> Result<SingleStats, Fail> {
@@ -142,7 +151,7 @@ fn single_run(c: &SingleCase, seed: u64, n: u64) -> Result<SingleStats, Fail> {
     let mut rng = SmRng::new(seed);
     let mut s = make(c.kind, m, &DUMMY);
     let f32k = c.kind.is_f32();
-    let mut st = SingleStats { perm_counts: vec![0; if m <= 5 { factorial(m) } else { 0 }], pos_counts: vec![0; if m <= 64 { m * m } else { 0 }], fracs: Vec::new(), prod: Acc::default() };
+    let mut st = SingleStats { perm_counts: vec![0; if m <= 5 { factorial(m) } else { 0 }], pos_counts: vec![0; if m <= 64 { m * m } else { 0 }], fracs: Vec::new(), prod: Acc::default(), tails: vec![0; 28], tails_n: 0, coarse: vec![0; if m > 64 { 16 } else { 0 }] };
     let keep_every = ((n * m as u64) / 2_000_000).max(1);
     let mut ip = vec![0usize; m];
     let mut fr = vec![0f64; m];
@@ -206,6 +215,38 @@ fn single_run(c: &SingleCase, seed: u64, n: u64) -> Result<SingleStats, Fail> {
                 st.pos_counts[k * m + ip[k]] += 1;
             }
         }
+        if !st.coarse.is_empty() {
+            let targets = [0usize, 1, m / 2, m - 1];
+            for k in 0..m {
+                for (ti, tj) in targets.iter().enumerate() {
+                    if ip[k] == *tj {
+                        st.coarse[ti * 4 + k * 4 / m] += 1;
+                    }
+                }
+            }
+        }
+        // tails of the fractional parts (f32: only where r + j keeps at least 19 fractional bits)
+        for k in 0..m {
+            if f32k && ip[k] >= 16 {
+                continue;
+            }
+            st.tails_n += 1;
+            let f = fr[k];
+            if f < 0.5 {
+                let mut kk = 1;
+                while kk <= 14 && f < 0.5f64.powi(kk) {
+                    st.tails[kk as usize - 1] += 1;
+                    kk += 1;
+                }
+            } else {
+                let g = 1.0 - f;
+                let mut kk = 1;
+                while kk <= 14 && g <= 0.5f64.powi(kk) {
+                    st.tails[14 + kk as usize - 1] += 1;
+                    kk += 1;
+                }
+            }
+        }
         if t % keep_every == 0 {
             st.fracs.extend_from_slice(&fr);
             kept += 1;
@@ -238,12 +279,44 @@ fn single_judge(c: &SingleCase, st: &mut SingleStats, n: u64) -> Option<String> 
             return Some(format!("integer part {} at position {} has frequency {:.6}, expected {:.6} +- {:.6}", i % m, i / m, f, 1.0 / m as f64, tol));
         }
     }
+    if !st.coarse.is_empty() {
+        // the 4 ranges have the exact probabilities (number of positions in the range) / m
+        let lc = L + 16f64.ln();
+        for (i, cnt) in st.coarse.iter().enumerate() {
+            let r = i % 4;
+            let npos = (0..m).filter(|k| k * 4 / m == r).count();
+            let pr = npos as f64 / m as f64;
+            let tol = bernstein_tol(pr * (1.0 - pr), 1.0, lc, n as f64);
+            let f = *cnt as f64 / n as f64;
+            if (f - pr).abs() > tol {
+                let tj = [0usize, 1, m / 2, m - 1][i / 4];
+                return Some(format!("integer part {} lies in quarter {} of the positions with frequency {:.6}, expected {:.6} +- {:.6}", tj, r, f, pr, tol));
+            }
+        }
+    }
     let nf = st.fracs.len() as f64;
     let d = ks_distance(&mut st.fracs, |x| x.clamp(0.0, 1.0));
     // f32 values carry at most 24 bits: allow the discretisation of r + j at the largest j
     let disc = if c.kind.is_f32() { (m as f64) * 2f64.powi(-23) } else { 0.0 };
     if d > dkw_tol(L, nf) + disc {
         return Some(format!("pooled fractional parts: Kolmogorov distance to U[0,1) is {:.5}, DKW bound {:.5} (n = {})", d, dkw_tol(L, nf) + disc, nf));
+    }
+    // dyadic tails [0, 2^-k) and [1 - 2^-k, 1): a window missing at either end of the unit interval is far below the resolution of the
+    // sup-distance test but empties the narrow tail bins
+    if st.tails_n > 0 {
+        let nt = st.tails_n as f64;
+        let lt = L + (28f64).ln();
+        let disc_t = if c.kind.is_f32() { 2f64.powi(-19) } else { 0.0 };
+        for (i, cnt) in st.tails.iter().enumerate() {
+            let k = (i % 14) as i32 + 1;
+            let pr = 0.5f64.powi(k);
+            let tol = bernstein_tol(pr * (1.0 - pr), 1.0, lt, nt) + disc_t;
+            let f = *cnt as f64 / nt;
+            if (f - pr).abs() > tol {
+                let name = if i < 14 { format!("[0, 2^-{})", k) } else { format!("[1 - 2^-{}, 1)", k) };
+                return Some(format!("fractional parts: the interval {} holds the fraction {:.6e} of {} values, expected {:.6e} +- {:.3e}", name, f, st.tails_n, pr, tol));
+            }
+        }
     }
     if m >= 2 {
         let t = mean_test(&st.prod, 0.25, Some(7.0 / 144.0 * 1.01), L);
@@ -262,14 +335,14 @@ pub fn eval_single(c: &SingleCase) -> Eval {
             return Err(Fail::new(format!("{:?} m={} single item sketches: {} ; on an independent seed with 4x the items: {}", c.kind, c.m, first, second)));
         }
     }
-    Ok(Report::new(c.m >= 2).trials(c.n).class(format!("{:?}", c.kind)).class_if(c.m <= 5, "all-m!-cells").class_if(c.m > 5 && c.m <= 64, "m^2-cells").class_if(c.m == 1, "m=1"))
+    Ok(Report::new(c.m >= 2).trials(c.n).class(format!("{:?}", c.kind)).class_if(c.m <= 5, "all-m!-cells").class_if(c.m > 5 && c.m <= 64, "m^2-cells").class_if(c.m == 1, "m=1").class_if(c.m >= 1000, "m>=1000(coarse-position-ranges)"))
 }
 
 pub fn run(ctx: &Ctx) {
     ctx.set_rule("(a) proptest generates (sketch type among SuperMinHash f64 / f32 / f64-NoHash and SuperMinHash2 u64-FNV / u64-NoHash / u32-XxHash32, m >= 1, a set triple from the strata general / nested / equal / disjoint / single element vs large superset, trial seed). \
         Per trial fresh random items; statistic = fraction of equal positions. Decisions (delta 1e-14, confirmation with 4x trials): |mean - J| within Bernstein with variance J(1-J)/m; mean of (est-J)^2 <= J(1-J)/m + empirical-Bernstein slack. Non-trivial = 0 < J < 1. \
-        (b) single item sketches of SuperMinHash: exact: the integer parts of the m values are a permutation of 0..m-1 (f32: a value equal to j+1 is accepted for integer part j); statistical: all m! permutations (m <= 5) or all m^2 (position, integer part) cells (m <= 64) equally likely (per-cell Bernstein + union bound), \
-        pooled fractional parts uniform (DKW), product of two fractional parts has mean 1/4.");
+        (b) single item sketches of SuperMinHash: exact: the integer parts of the m values are a permutation of 0..m-1 (f32: a value equal to j+1 is accepted for integer part j); statistical: all m! permutations (m <= 5) or all m^2 (position, integer part) cells (m <= 64) equally likely (per-cell Bernstein + union bound), for m > 64 (up to 100 000, incl. 49 152, 65 535, 65 537) the integer parts 0, 1, m/2, m-1 fall in each quarter of the positions with the exact frequency, \
+        pooled fractional parts uniform (DKW) and, over all values, the 28 dyadic tail intervals [0, 2^-k) and [1 - 2^-k, 1), k = 1..14, hold their exact mass (per-interval Bernstein bound, union over the 28), product of two fractional parts has mean 1/4.");
     super::run_fixed_tier(ctx, replay);
     let (cases, max_m, max_n, work) = ctx.tier.pick((144, 256, 10_000, 16_000_000), (2400, 2048, 300_000, 80_000_000));
     ctx.drive("unbiased", cases, 16, 16, || strategy(max_m, max_n, work), eval);
